@@ -47,6 +47,10 @@ TraceNext ==
     /\ l' = l + 1
     /\ LET rec == Log[l] IN
        IF rec.ev = "section" THEN by' = rec.by /\ prev' = None
+       ELSE IF rec.ev = "pair" THEN /\ UNCHANGED <<by, prev>>
+                                     \* two-message transactions over messages A # B of one type: [A,B], [B,A], [A,A], [B,B] are four different transactions
+                                     /\ IF rec.distinct THEN TRUE ELSE PrintT(<<"VIOLATION", "C14", rec.id, rec.i, l>>)
+                                     /\ IF rec.panic THEN PrintT(<<"VIOLATION", "C17", rec.id, rec.i, l>>) ELSE TRUE
        ELSE IF rec.ev = "xproc" THEN /\ UNCHANGED <<by, prev>>
                                       /\ IF rec.equal THEN TRUE ELSE PrintT(<<"VIOLATION", "C14", "nondeterministic-across-processes", 0, l>>)
        ELSE /\ by' = by /\ prev' = rec
